@@ -102,6 +102,7 @@ def opOf (j : Json) : R (FSA.Op Vx String) := do
   | "recurrent" => return .recurrent
   | "rename" => return .rename (← dictOf str str (← field j "m"))
   | "copy" => return .copy
+  | "hasedge" => return .hasEdge (← vxOf (← field j "t")) (← vxOf (← field j "h"))
   | _ => throw "unknown op kind"
 
 def stepOf (s : A) (j : Json) : R A := do lift (s.applyOp (← opOf j))
